@@ -205,62 +205,69 @@ def r1_pure_handover(ctx):
 
     _with_fallback(ctx, ("hand-over",), _tpl)
     n += 1
-    # dependent skeletons: every emitted line that calls HANDLER*/FALLTHROUGH
-    for e in emissions(depgen.node):
-        sk = e.skeleton
-        if "HANDLER" not in sk.text and "FALLTHROUGH" not in sk.text:
-            continue
-        text = sk.text.strip()
-        if text.startswith(("if ", "elif ")) and text.rstrip().endswith(":") is False and ": return" in text:
-            body = text.split(":", 1)[1].strip()
-        else:
-            body = text
-        nonret = None
-        if not body.startswith("return"):
-            try:
-                st0 = ast.parse(body).body[0]
-            except SyntaxError:
-                st0 = None
-            val0 = getattr(st0, "value", None)
-            if isinstance(val0, ast.Call) and isinstance(val0.func, ast.Name) and sk.literal_of(val0.func.id).startswith(("HANDLER", "FALLTHROUGH")):
-                nonret = val0
-        if nonret is not None:
-            n += 1
-            ctx.ob(f"{depgen.key}:emit:{short(e.arg, 40)}", depgen.loc(e.node), "dependent dispatcher hands over with `return <handler>(...)`", False, f"`{short(e.arg, 70)}` calls the handler without returning its value directly")
-        elif body.startswith("return") and "(" in body:
-            try:
-                val = ast.parse(body).body[0].value
-            except SyntaxError:
-                raise AnalysisError(f"{depgen.loc(e.node)}: emitted line does not parse: {body!r}")
+    def _dep_skeleton(ctx_):
+        nonlocal n
+        # dependent skeletons: every emitted line that calls HANDLER*/FALLTHROUGH
+        for e in emissions(depgen.node):
+            sk = e.skeleton
+            if "HANDLER" not in sk.text and "FALLTHROUGH" not in sk.text:
+                continue
+            text = sk.text.strip()
+            if text.startswith(("if ", "elif ")) and text.rstrip().endswith(":") is False and ": return" in text:
+                body = text.split(":", 1)[1].strip()
+            else:
+                body = text
+            nonret = None
+            if not body.startswith("return"):
+                try:
+                    st0 = ast.parse(body).body[0]
+                except SyntaxError:
+                    st0 = None
+                val0 = getattr(st0, "value", None)
+                if isinstance(val0, ast.Call) and isinstance(val0.func, ast.Name) and sk.literal_of(val0.func.id).startswith(("HANDLER", "FALLTHROUGH")):
+                    nonret = val0
+            if nonret is not None:
+                n += 1
+                ctx.ob(f"{depgen.key}:emit:{short(e.arg, 40)}", depgen.loc(e.node), "dependent dispatcher hands over with `return <handler>(...)`", False, f"`{short(e.arg, 70)}` calls the handler without returning its value directly")
+            elif body.startswith("return") and "(" in body:
+                try:
+                    val = ast.parse(body).body[0].value
+                except SyntaxError:
+                    raise AnalysisError(f"{depgen.loc(e.node)}: emitted line does not parse: {body!r}")
+                n += 1
+                ctx.ob(
+                    f"{depgen.key}:emit:{sk.literal_of(body)[:48]}",
+                    depgen.loc(e.node),
+                    "dependent dispatcher hands over with `return <handler>(...)`",
+                    isinstance(val, ast.Call),
+                    f"`{short(e.arg, 70)}` does not return the handler's call directly",
+                )
+        # all hand-overs of the dependent dispatcher pass the same argument list (sibling cross-check)
+        arglists = []
+        for e in emissions(depgen.node):
+            sk = e.skeleton
+            for m in ast.walk(_safe_parse(sk)):
+                if isinstance(m, ast.Call) and isinstance(m.func, ast.Name) and sk.literal_of(m.func.id).startswith(("HANDLER", "FALLTHROUGH")):
+                    holes = tuple(h for a in m.args if isinstance(a, ast.Name) for h in sk.hole_of(a.id))
+                    arglists.append((e, holes))
+        ctx.require(len(arglists) >= 4, f"{depgen.key}: fewer hand-overs than the three strategies need")
+        from collections import Counter
+
+        major = Counter(h for _, h in arglists).most_common(1)[0][0]
+        for e, holes in arglists:
             n += 1
             ctx.ob(
-                f"{depgen.key}:emit:{sk.literal_of(body)[:48]}",
+                f"{depgen.key}:args:{short(e.arg, 40)}",
                 depgen.loc(e.node),
-                "dependent dispatcher hands over with `return <handler>(...)`",
-                isinstance(val, ast.Call),
-                f"`{short(e.arg, 70)}` does not return the handler's call directly",
+                f"this hand-over passes the same argument list as the other {len(arglists) - 1} hand-overs of the dependent dispatcher ({', '.join(major)})",
+                holes == major,
+                f"`{short(e.arg, 70)}` passes ({', '.join(holes)}) where its siblings pass ({', '.join(major)}): on this strategy keyword arguments are forwarded positionally (or dropped)",
             )
-    # all hand-overs of the dependent dispatcher pass the same argument list (sibling cross-check)
-    arglists = []
-    for e in emissions(depgen.node):
-        sk = e.skeleton
-        for m in ast.walk(_safe_parse(sk)):
-            if isinstance(m, ast.Call) and isinstance(m.func, ast.Name) and sk.literal_of(m.func.id).startswith(("HANDLER", "FALLTHROUGH")):
-                holes = tuple(h for a in m.args if isinstance(a, ast.Name) for h in sk.hole_of(a.id))
-                arglists.append((e, holes))
-    ctx.require(len(arglists) >= 4, f"{depgen.key}: fewer hand-overs than the three strategies need")
-    from collections import Counter
 
-    major = Counter(h for _, h in arglists).most_common(1)[0][0]
-    for e, holes in arglists:
-        n += 1
-        ctx.ob(
-            f"{depgen.key}:args:{short(e.arg, 40)}",
-            depgen.loc(e.node),
-            f"this hand-over passes the same argument list as the other {len(arglists) - 1} hand-overs of the dependent dispatcher ({', '.join(major)})",
-            holes == major,
-            f"`{short(e.arg, 70)}` passes ({', '.join(holes)}) where its siblings pass ({', '.join(major)}): on this strategy keyword arguments are forwarded positionally (or dropped)",
-        )
+    from . import depgen as DG
+
+    DG.with_fallback(ctx, ("pure-handover", "hand-over"), _dep_skeleton)
+    n += 4
     # python-level hand-over sites
     sites = []
     for f in repo.all_funcs():
